@@ -266,7 +266,8 @@ var $newType = (size, kind, string, named, pkg, exported, constructor) => {
                 });
                 typ.keyFor = x => {
                     var val = x.$val;
-                    return $mapArray(fields, f => {
+                    /* Blank fields take no part in comparisons. */
+                    return $mapArray(fields.filter(f => { return f.name !== "_"; }), f => {
                         return String(f.typ.keyFor(val[f.prop])).replace(/\\/g, "\\\\").replace(/\$/g, "\\$");
                     }).join("$");
                 };
